@@ -27,7 +27,7 @@ for (p, k), v in sorted(val.items()):
     except Exception:
         meta = {}
     old = json.load(open(dst + '/meta.json')) if os.path.exists(dst + '/meta.json') else {}
-    meta.update(dict(property=p, wave={'r': 'refactor', 's': 'refactor2', 't': 'refactor3', 'u': 'refactor4'}.get(os.environ.get('TAG', 'r'), 'refactor4'), kind='refactor', origin='independent sub-agent asked for a behaviour-preserving refactoring (only the property text and a scratch worktree)',
+    meta.update(dict(property=p, wave={'r': 'refactor', 's': 'refactor2', 't': 'refactor3', 'u': 'refactor4', 'p': 'refactor5'}.get(os.environ.get('TAG', 'r'), 'refactor4'), kind='refactor', origin='independent sub-agent asked for a behaviour-preserving refactoring (only the property text and a scratch worktree)',
                      validated=dict(repo_head=head, patch_applied_with='git ' + v['how'], demo_output_identical=True,
                                     pinned_suite='%d tests pass with the patch; all 145 stable_pass tests still pass' % v['passed'])))
     for key in old:
